@@ -29,7 +29,7 @@ RULE = ("bit formats = ordered tuples of field widths >= 1; quick: every format 
         "binize/unbinize all n < 2**12 at sizes 1..12 and random, signExtend all (x, n) with n <= 12 and random n "
         "<= 128; distinct = distinct (function family, format, values / argument); non-trivial = at least one "
         "field / one byte / one digit")
-RULE = __import__("vf.core", fromlist=["rule_add"]).rule_add(RULE, "also round trips through the caller's own buffer (bytify(unbytify(mine)) == mine, buffer unchanged)")
+RULE = __import__("vf.core", fromlist=["rule_add"]).rule_add(RULE, "also round trips through the caller's own buffer (bytify(unbytify(mine)) == mine, buffer unchanged), the reverse reading of a kept buffer against the plain reading of its mirror image")
 META = {"engine": "C function",
         "technique": "differential test against integer arithmetic (exhaustive small formats + random wide ones)",
         "level_text": "exploration: all formats up to 8 (quick) / 10 (thorough) bits with all field values are "
